@@ -3,16 +3,22 @@
     emits for the term (pattern construction of every plug included, under any memoiser stack) run
     on the checker model [ML/Machine.v exec guards_sound] to [Proved <conclusion>].
 
-    Class of arguments covered (= what [PTerm/LibWf.v lib_wf] covers): every pattern handed to a rule
-    and every premise conclusion is [plug_ok] = substitution-free, all metavariables unconstrained,
-    every Mu positive ([LibWf.simple p && Model.pat_wf p]). *)
+    Class of arguments covered: [gok] thunks and [pat_wf] patterns --
+      * every pattern handed to a rule is [PM.pat_wf]: ANY meta-pattern the checker accepts when it is
+        built (constrained metavariables whose holes and e_fresh lists are disjoint, pending
+        ESubst/SSubst that are non-redundant and meta-headed, positive Mu);
+      * every premise thunk is [gok]: its term passes C02's [wf_for_checker] (each Instantiate in it is
+        one on which checker and generator agree), its stored conclusion is the static one and is
+        [pat_wf];
+      * only for the rules that RE-INSTANTIATE A PREMISE (the six *_match* rules): that premise's
+        conclusion is [LibWf.simple] (substitution-free, unconstrained metavariables).  Without this the
+        statement is false: [replays_refuted_constrained], [replays_refuted_capture] below. *)
 From Coq Require Import NArith List Bool Lia.
 From Pi2 Require Import ML.Syntax ML.Subst ML.Machine Lib.Term Lib.TermFacts Lib.Match.
 From Pi2 Require PTerm.Model PTerm.Facts PTerm.MapSym PTerm.Compile PTerm.LibWf.
 Import ListNotations.
 Open Scope N_scope.
 
-Module PM := Pi2.PTerm.Model.
 Module PW := Pi2.PTerm.LibWf.
 Module PC := Pi2.PTerm.Compile.
 Module PS := Pi2.PTerm.MapSym.
@@ -26,81 +32,48 @@ Fixpoint emb (t : pterm) : PM.pterm :=
   | MP l r => PM.PMP (emb l) (emb r)
   | Inst t d => PM.PDynInst (emb t) d
   | LoadAx a => PM.PLoadAxiom a
+  | Gen t x => PM.PGen (emb t) x
   end.
 
-Notation pok := PW.plug_ok.
+Notation pwf := PM.pat_wf.
 
-(** a thunk whose term is in C02's propositional fragment and whose conclusion may itself be used as
-    a plug *)
-Definition sok (x : thunk) : Prop :=
+Lemma emb_dynamic : forall t, PM.dynamic (emb t) = true.
+Proof. induction t; cbn; rewrite ?IHt1, ?IHt2, ?IHt; reflexivity. Qed.
+
+(** the embedding preserves the static conclusion (C02's [static_conc] is the generator's: no
+    freshness check on Generalization) *)
+Lemma emb_static : forall g axs t c, static_conc g axs t = Some c -> PM.static_conc axs (emb t) = Some c.
+Proof.
+  intros g axs. induction t as [| | |l IHl r IHr|t IH d|a|t IH x]; intros c H; cbn in *; auto.
+  - destruct (static_conc g axs l) as [cl|]; [|discriminate].
+    destruct (static_conc g axs r) as [cr|]; [|destruct cl; discriminate].
+    now rewrite (IHl _ eq_refl), (IHr _ eq_refl).
+  - destruct (static_conc g axs t) as [c0|]; [|discriminate]. rewrite (IH _ eq_refl).
+    cbn in H. destruct d; [cbn in H|]; exact H.
+  - destruct (static_conc g axs t) as [c0|]; [|discriminate]. rewrite (IH _ eq_refl).
+    destruct c0; try discriminate. destruct (g && e_fresh c0_2 x); [exact H|discriminate].
+Qed.
+
+(** a thunk the checker will accept: C02's side conditions hold for its term, the stored conclusion is
+    the static one, and it may itself be used as a plug *)
+Definition gok (axs : list pat) (x : thunk) : Prop :=
   match x with
-  | Some (t, c) => PW.simple_term (emb t) = true /\ pok c = true
+  | Some (t, c) => PM.wf_for_checker axs (emb t) = true /\ PM.static_conc axs (emb t) = Some c /\ pwf c = true
   | None => True
   end.
 
-(** * the two instantiation functions agree on simple patterns *)
-Lemma plain_simple : forall p, plain p = PW.simple p.
-Proof.
-  induction p as [n|n|n|l IHl r IHr|l IHl r IHr|x p IH|x p IH|i a1 a2 a3 a4 a5|p IHp x q IHq|p IHp x q IHq];
-    cbn; rewrite ?IHl, ?IHr, ?IH; try reflexivity.
-  destruct a1, a2, a3, a4, a5; reflexivity.
-Qed.
+(** the thunk's conclusion is substitution-free with unconstrained metavariables only *)
+Definition csimple (x : thunk) : Prop :=
+  match x with Some (_, c) => PW.simple c = true | None => True end.
 
-Lemma assoc_dlookup : forall d i, assoc i d = PM.dlookup i d.
-Proof.
-  induction d as [|[k v] d IH]; intros i; cbn; [reflexivity|].
-  rewrite (N.eqb_sym k i). destruct (N.eqb i k); auto.
-Qed.
-
-Lemma pinst_py : forall d p, PW.simple p = true -> pinst d p = PM.py_inst' d p.
-Proof.
-  intros d.
-  induction p as [n|n|n|l IHl r IHr|l IHl r IHr|x p IH|x p IH|i a1 a2 a3 a4 a5|p IHp x q IHq|p IHp x q IHq];
-    intros S; cbn in *; try reflexivity; try discriminate.
-  - apply andb_true_iff in S as [S1 S2]. now rewrite IHl, IHr.
-  - apply andb_true_iff in S as [S1 S2]. now rewrite IHl, IHr.
-  - now rewrite IH.
-  - now rewrite IH.
-  - now rewrite assoc_dlookup.
-Qed.
-
-Lemma inst_fwd : forall d c, PW.simple c = true ->
-  inst guards_sound c (map fst d) (map snd d) = Some (PM.py_inst' d c).
-Proof.
-  intros d c S. rewrite inst_plain by (now rewrite plain_simple). now rewrite pinst_py.
-Qed.
-
-Lemma py_inst'_nil : forall p, PW.simple p = true -> PM.py_inst' [] p = p.
-Proof. intros p S. rewrite <- pinst_py by exact S. apply pinst_nil. Qed.
-
-(** * the embedding preserves the static conclusion *)
-Lemma emb_static : forall axs t, PW.simple_term (emb t) = true ->
-  static_conc axs t = PM.static_conc axs (emb t).
-Proof.
-  intros axs. induction t as [| | |l IHl r IHr|t IH d|a]; intros S; cbn [emb] in *; try reflexivity.
-  - cbn in S. apply andb_true_iff in S as [S1 S2]. cbn. now rewrite IHl, IHr.
-  - cbn [PW.simple_term] in S. apply andb_true_iff in S as [S S3]. apply andb_true_iff in S as [S1 S2].
-    cbn [static_conc PM.static_conc]. rewrite (IH S1).
-    destruct (PM.static_conc axs (emb t)) as [c|] eqn:E.
-    + pose proof (PW.static_simple axs (emb t) S1 c E) as Sc.
-      rewrite (inst_fwd d c Sc). destruct d as [|kv d]; [|reflexivity].
-      now rewrite py_inst'_nil.
-    + destruct d; reflexivity.
-Qed.
-
-(** * plug_ok is closed under what the library does with patterns *)
-Lemma pok_imp : forall a b, pok a = true -> pok b = true -> pok (Imp a b) = true.
-Proof.
-  unfold PW.plug_ok. intros a b Ha Hb. apply andb_true_iff in Ha as [A1 A2]. apply andb_true_iff in Hb as [B1 B2].
-  cbn. now rewrite A1, A2, B1, B2.
-Qed.
-Lemma pok_imp_inv : forall a b, pok (Imp a b) = true -> pok a = true /\ pok b = true.
-Proof.
-  unfold PW.plug_ok. intros a b H. cbn in H. apply andb_true_iff in H as [H1 H2].
-  apply andb_true_iff in H1 as [A1 B1]. apply andb_true_iff in H2 as [A2 B2]. now rewrite A1, A2, B1, B2.
-Qed.
-Lemma pok_bot : pok (Mu 0 (SVar 0)) = true. Proof. reflexivity. Qed.
-Lemma pok_phi : forall k, pok (MVar k [] [] [] [] []) = true. Proof. reflexivity. Qed.
+(** * pat_wf is closed under what the library does with patterns *)
+Lemma pwf_imp : forall a b, pwf a = true -> pwf b = true -> pwf (Imp a b) = true.
+Proof. intros a b Ha Hb. cbn. now rewrite Ha, Hb. Qed.
+Lemma pwf_imp_inv : forall a b, pwf (Imp a b) = true -> pwf a = true /\ pwf b = true.
+Proof. intros a b H. cbn in H. now apply andb_true_iff in H. Qed.
+Lemma pwf_bot : pwf (Mu 0 (SVar 0)) = true. Proof. reflexivity. Qed.
+Lemma pwf_phi : forall k, pwf (MVar k [] [] [] [] []) = true. Proof. reflexivity. Qed.
+Lemma pwf_ex : forall x a, pwf a = true -> pwf (Ex x a) = true. Proof. intros; assumption. Qed.
 
 Lemma dlookup_In : forall d i q, PM.dlookup i d = Some q -> In q (PM.dvals d).
 Proof.
@@ -111,11 +84,11 @@ Qed.
 Lemma forallb_In : forall (f : pat -> bool) l x, forallb f l = true -> In x l -> f x = true.
 Proof. intros f l x H Hx. rewrite forallb_forall in H. auto. Qed.
 
-(** instantiating a simple, checker-well-formed pattern with well-formed plugs stays well-formed
-    (under a positive Mu there is no unconstrained metavariable, so nothing is replaced there) *)
-Lemma py_inst'_wf : forall d, forallb PM.pat_wf (PM.dvals d) = true ->
-  forall p, PW.simple p = true -> PM.pat_wf p = true ->
-  (forall b X, polar b p X = true -> PM.py_inst' d p = p) /\ PM.pat_wf (PM.py_inst' d p) = true.
+(** instantiating a simple, checker-well-formed pattern with ARBITRARY well-formed plugs stays
+    well-formed (under a positive Mu there is no unconstrained metavariable, so nothing is replaced) *)
+Lemma py_inst'_wf : forall d, forallb pwf (PM.dvals d) = true ->
+  forall p, PW.simple p = true -> pwf p = true ->
+  (forall b X, polar b p X = true -> PM.py_inst' d p = p) /\ pwf (PM.py_inst' d p) = true.
 Proof.
   intros d D.
   induction p as [n|n|n|l IHl r IHr|l IHl r IHr|x p IH|x p IH|i a1 a2 a3 a4 a5|p IHp x q IHq|p IHp x q IHq];
@@ -145,39 +118,37 @@ Proof.
       eapply forallb_In; [exact D | eapply dlookup_In; eauto].
 Qed.
 
-Lemma forallb_pok_split : forall l, forallb pok l = true ->
-  forallb PW.simple l = true /\ forallb PM.pat_wf l = true.
-Proof. exact PW.forallb_plug_ok. Qed.
+(** * the DSL primitives preserve [gok] *)
+Lemma prop1_gok : forall axs, gok axs prop1. Proof. intros; repeat split. Qed.
+Lemma prop2_gok : forall axs, gok axs prop2. Proof. intros; repeat split. Qed.
+Lemma prop3_gok : forall axs, gok axs prop3. Proof. intros; repeat split. Qed.
+Lemma prop1_csimple : csimple prop1. Proof. reflexivity. Qed.
+Lemma prop2_csimple : csimple prop2. Proof. reflexivity. Qed.
+Lemma prop3_csimple : csimple prop3. Proof. reflexivity. Qed.
 
-Lemma pok_inst : forall d c, pok c = true -> forallb pok (PM.dvals d) = true -> pok (PM.py_inst' d c) = true.
+Lemma mp_gok : forall axs l r, gok axs l -> gok axs r -> gok axs (mp l r).
 Proof.
-  intros d c Hc Hd. unfold PW.plug_ok in *. apply andb_true_iff in Hc as [C1 C2].
-  destruct (forallb_pok_split _ Hd) as [D1 D2].
-  rewrite (PW.py_inst'_simple d c C1 D1). cbn. exact (proj2 (py_inst'_wf d D2 c C1 C2)).
-Qed.
-
-(** * the DSL primitives preserve [sok] *)
-Lemma prop1_sok : sok prop1. Proof. split; reflexivity. Qed.
-Lemma prop2_sok : sok prop2. Proof. split; reflexivity. Qed.
-Lemma prop3_sok : sok prop3. Proof. split; reflexivity. Qed.
-
-Lemma mp_sok : forall l r, sok l -> sok r -> sok (mp l r).
-Proof.
-  intros [[tl cl]|] [[tr cr]|] Hl Hr; cbn in *; try exact I.
-  - destruct cl; try exact I. destruct (pat_eqb cl1 cr); [|exact I].
-    destruct Hl as [L1 L2], Hr as [R1 R2]. cbn. rewrite L1, R1. split; [reflexivity|].
-    now destruct (pok_imp_inv _ _ L2).
+  intros axs [[tl cl]|] [[tr cr]|] Hl Hr; cbn in *; try exact I.
+  - destruct cl; try exact I. destruct (pat_eqb cl1 cr) eqn:E; [|exact I].
+    destruct Hl as (L1 & L2 & L3), Hr as (R1 & R2 & R3). cbn. rewrite L1, R1, L2, R2, E.
+    repeat split. now destruct (pwf_imp_inv _ _ L3).
   - destruct cl; exact I.
 Qed.
 
-Lemma dynamic_inst_sok : forall X d, sok X -> PM.delta_ok d = true -> forallb pok (PM.dvals d) = true ->
-  sok (dynamic_inst X d).
+Lemma gen_gok : forall axs h x, gok axs h -> gok axs (gen h x).
 Proof.
-  intros [[t c]|] d H D P; cbn in *; [|exact I]. destruct H as [H1 H2].
-  destruct d as [|kv d]; [split; assumption|].
-  assert (Sc : PW.simple c = true) by (unfold PW.plug_ok in H2; now apply andb_true_iff in H2 as [? _]).
-  rewrite (inst_fwd (kv :: d) c Sc). cbn [sok emb PW.simple_term]. rewrite H1, D, P. split; [reflexivity|].
-  now apply pok_inst.
+  intros axs [[t c]|] x H; cbn in *; [|exact I]. destruct c; try exact I.
+  destruct H as (H1 & H2 & H3). cbn. rewrite H1, H2. repeat split. exact H3.
+Qed.
+
+Lemma dynamic_inst_gok : forall axs X d, gok axs X -> csimple X ->
+  PM.delta_ok d = true -> forallb pwf (PM.dvals d) = true -> gok axs (dynamic_inst X d).
+Proof.
+  intros axs [[t c]|] d H S D P; cbn in *; [|exact I]. destruct H as (H1 & H2 & H3).
+  destruct d as [|kv d]; [repeat split; assumption|].
+  cbn [gok emb PM.wf_for_checker PM.static_conc]. rewrite H1, H2, P.
+  rewrite (PW.inst_agree_simple c (kv :: d) S D). repeat split.
+  exact (proj2 (py_inst'_wf (kv :: d) P c S H3)).
 Qed.
 
 (** [_build_subst]: keys strictly increasing, values among the arguments *)
@@ -197,98 +168,101 @@ Proof.
   apply build_subst_from_keys in E. lia.
 Qed.
 
-Lemma build_subst_vals : forall ps k, forallb pok ps = true -> forallb pok (PM.dvals (build_subst_from k ps)) = true.
+Lemma build_subst_vals : forall ps k, forallb pwf ps = true -> forallb pwf (PM.dvals (build_subst_from k ps)) = true.
 Proof.
   unfold PM.dvals. induction ps as [|p ps IH]; intros k H; cbn in *; [reflexivity|].
   apply andb_true_iff in H as [H1 H2]. destruct (pat_eqb p (phi k)); [auto|]. cbn. now rewrite H1, IH.
 Qed.
 
-Lemma dynamic_inst_build_sok : forall X ps, sok X -> forallb pok ps = true ->
-  sok (dynamic_inst X (build_subst ps)).
+Lemma dynamic_inst_build_gok : forall axs X ps, gok axs X -> csimple X -> forallb pwf ps = true ->
+  gok axs (dynamic_inst X (build_subst ps)).
 Proof.
-  intros. apply dynamic_inst_sok; [assumption | apply build_subst_ok | now apply build_subst_vals].
+  intros. apply dynamic_inst_gok; [assumption | assumption | apply build_subst_ok | now apply build_subst_vals].
 Qed.
 
-Lemma load_ax_by_index_sok : forall A i, forallb pok A = true -> sok (load_ax_by_index A i).
+Lemma load_ax_gok : forall A axs a, ax_incl A axs -> pwf a = true -> gok axs (load_ax A a).
 Proof.
-  intros A i H. unfold load_ax_by_index. destruct (nth_error A i) as [a|] eqn:E; [|exact I].
-  unfold load_ax. destruct (existsb (pat_eqb a) A); [|exact I].
-  assert (P : pok a = true) by (eapply forallb_In; [exact H | eapply nth_error_In; eauto]).
-  cbn. split; [|exact P]. unfold PW.plug_ok in P. now apply andb_true_iff in P as [? _].
+  intros A axs a Hi P. unfold load_ax. destruct (existsb (pat_eqb a) A) eqn:E; [|exact I].
+  cbn. unfold PM.pmem. rewrite (Hi _ E). repeat split. exact P.
+Qed.
+
+Lemma load_ax_by_index_gok : forall A axs i, ax_incl A axs -> forallb pwf A = true -> gok axs (load_ax_by_index A i).
+Proof.
+  intros A axs i Hi H. unfold load_ax_by_index. destruct (nth_error A i) as [a|] eqn:E; [|exact I].
+  apply load_ax_gok; [exact Hi|]. eapply forallb_In; [exact H | eapply nth_error_In; eauto].
 Qed.
 
 (** * binders of the translated method bodies *)
-Lemma bindc_conc_sok : forall h k, sok h -> (forall c, pok c = true -> sok (k c)) -> sok (bindc (conc h) k).
-Proof. intros [[t c]|] k H K; cbn in *; [apply K; tauto | exact I]. Qed.
-
-Lemma conc_pok : forall h c, sok h -> conc h = Some c -> pok c = true.
-Proof. intros [[t c0]|] c H E; cbn in *; [injection E as <-; tauto | discriminate]. Qed.
-
-Definition opok (o : option pat) : Prop := match o with Some p => pok p = true | None => True end.
-Lemma opok_conc : forall h, sok h -> opok (conc h).
-Proof. intros [[t c]|] H; cbn in *; tauto. Qed.
-Lemma opok_some : forall p, pok p = true -> opok (Some p).
+Definition opwf (o : option pat) : Prop := match o with Some p => pwf p = true | None => True end.
+Lemma opwf_conc : forall axs h, gok axs h -> opwf (conc h).
+Proof. intros axs [[t c]|] H; cbn in *; tauto. Qed.
+Lemma opwf_some : forall p, pwf p = true -> opwf (Some p).
 Proof. intros; assumption. Qed.
 
-Lemma bindc_imp_sok : forall o k, opok o ->
-  (forall a b, pok a = true -> pok b = true -> sok (k (a, b))) -> sok (bindc (extract_imp o) k).
+Lemma bindc_conc_gok : forall axs h k, gok axs h -> (forall c, pwf c = true -> gok axs (k c)) ->
+  gok axs (bindc (conc h) k).
+Proof. intros axs [[t c]|] k H K; cbn in *; [apply K; tauto | exact I]. Qed.
+
+Lemma bindc_imp_gok : forall axs o k, opwf o ->
+  (forall a b, pwf a = true -> pwf b = true -> gok axs (k (a, b))) -> gok axs (bindc (extract_imp o) k).
 Proof.
-  intros [p|] k H K; cbn in *; [|exact I]. destruct p; try exact I.
-  destruct (pok_imp_inv _ _ H). cbn. auto.
+  intros axs [p|] k H K; cbn in *; [|exact I]. destruct p; try exact I.
+  destruct (pwf_imp_inv _ _ H). cbn. auto.
 Qed.
 
-Lemma bindc_neg_sok : forall o k, opok o ->
-  (forall a, pok a = true -> sok (k a)) -> sok (bindc (match_neg o) k).
+Lemma bindc_neg_gok : forall axs o k, opwf o ->
+  (forall a, pwf a = true -> gok axs (k a)) -> gok axs (bindc (match_neg o) k).
 Proof.
-  intros [p|] k H K; cbn in *; [|exact I].
-  destruct p as [| | |a b| | | | | |]; try exact I. destruct (pok_imp_inv _ _ H) as [Ha _].
+  intros axs [p|] k H K; cbn in *; [|exact I].
+  destruct p as [| | |a b| | | | | |]; try exact I. destruct (pwf_imp_inv _ _ H) as [Ha _].
   destruct b as [| | | | | |X q| | |]; try exact I. destruct X; try exact I.
   destruct q as [|n| | | | | | | |]; try exact I. destruct n; try exact I. cbn. auto.
 Qed.
 
-Lemma match_and_pok : forall o a b, opok o -> match_and o = Some (a, b) -> pok a = true /\ pok b = true.
+Lemma match_and_pwf : forall o a b, opwf o -> match_and o = Some (a, b) -> pwf a = true /\ pwf b = true.
 Proof.
   intros [p|] a b H E; cbn in *; [|discriminate].
   repeat match type of E with
          | match ?x with _ => _ end = _ => destruct x; try discriminate
          end.
   injection E as <- <-.
-  destruct (pok_imp_inv _ _ H) as [H1 _]. destruct (pok_imp_inv _ _ H1) as [Ha H2].
-  destruct (pok_imp_inv _ _ H2) as [Hb _]. auto.
+  destruct (pwf_imp_inv _ _ H) as [H1 _]. destruct (pwf_imp_inv _ _ H1) as [Ha H2].
+  destruct (pwf_imp_inv _ _ H2) as [Hb _]. auto.
 Qed.
 
-Lemma bindc_and_sok : forall o k, opok o ->
-  (forall a b, pok a = true -> pok b = true -> sok (k (a, b))) -> sok (bindc (match_and o) k).
+Lemma bindc_and_gok : forall axs o k, opwf o ->
+  (forall a b, pwf a = true -> pwf b = true -> gok axs (k (a, b))) -> gok axs (bindc (match_and o) k).
 Proof.
-  intros o k H K. destruct (match_and o) as [[a b]|] eqn:E; cbn; [|exact I].
-  destruct (match_and_pok _ _ _ H E). auto.
+  intros axs o k H K. destruct (match_and o) as [[a b]|] eqn:E; cbn; [|exact I].
+  destruct (match_and_pwf _ _ _ H E). auto.
 Qed.
 
-Lemma bindc_or_sok : forall o k, opok o ->
-  (forall a b, pok a = true -> pok b = true -> sok (k (a, b))) -> sok (bindc (match_or o) k).
+Lemma bindc_or_gok : forall axs o k, opwf o ->
+  (forall a b, pwf a = true -> pwf b = true -> gok axs (k (a, b))) -> gok axs (bindc (match_or o) k).
 Proof.
-  intros o k H K. destruct (match_or o) as [[a b]|] eqn:E; cbn; [|exact I].
+  intros axs o k H K. destruct (match_or o) as [[a b]|] eqn:E; cbn; [|exact I].
   destruct o as [p|]; cbn in E; [|discriminate].
   repeat match type of E with
          | match ?x with _ => _ end = _ => destruct x; try discriminate
          end.
-  injection E as <- <-. cbn in H.
-  destruct (pok_imp_inv _ _ H) as [H1 Hb]. destruct (pok_imp_inv _ _ H1) as [Ha _]. auto.
+  injection E as <- <-. cbn [opwf] in H.
+  destruct (pwf_imp_inv _ _ H) as [H1 Hb]. destruct (pwf_imp_inv _ _ H1) as [Ha _]. auto.
 Qed.
 
-Lemma bindc_equiv_sok : forall o k, opok o ->
-  (forall a b, pok a = true -> pok b = true -> sok (k (a, b))) -> sok (bindc (match_equiv o) k).
+Lemma bindc_equiv_gok : forall axs o k, opwf o ->
+  (forall a b, pwf a = true -> pwf b = true -> gok axs (k (a, b))) -> gok axs (bindc (match_equiv o) k).
 Proof.
-  intros o k H K. destruct (match_equiv o) as [[a b]|] eqn:E; cbn; [|exact I].
+  intros axs o k H K. destruct (match_equiv o) as [[a b]|] eqn:E; cbn; [|exact I].
   unfold match_equiv in E. destruct (match_and o) as [[x y]|] eqn:M; [|discriminate].
-  destruct (match_and_pok _ _ _ H M) as [Hx Hy].
+  destruct (match_and_pwf _ _ _ H M) as [Hx Hy].
   destruct x; try discriminate. destruct y; try discriminate.
   destruct (pat_eqb x2 y1 && pat_eqb x1 y2); [|discriminate]. injection E as <- <-.
-  destruct (pok_imp_inv _ _ Hx). auto.
+  destruct (pwf_imp_inv _ _ Hx). auto.
 Qed.
 
-Lemma guard_sok : forall b t, sok t -> sok (guard b t).
-Proof. intros [|] t H; cbn; [exact H | exact I]. Qed.
+Lemma guard_gok : forall axs b t, gok axs t -> gok axs (guard b t).
+Proof. intros axs [|] t H; cbn; [exact H | exact I]. Qed.
+Lemma none_gok : forall axs, gok axs None. Proof. intros; exact I. Qed.
 
 (** [match_single] returns a dict (unique keys) whose values are sub-patterns of the instance *)
 Lemma mem_keys_assoc : forall d i, assoc i d = None -> mem i (PM.dkeys d) = false.
@@ -308,32 +282,27 @@ Proof.
   rewrite N.eqb_sym. exact M1.
 Qed.
 
-Lemma match_single_sok : forall p i ret ret',
-  match_single p i ret = Some ret' -> pok i = true ->
-  PM.delta_ok ret = true -> forallb pok (PM.dvals ret) = true ->
-  PM.delta_ok ret' = true /\ forallb pok (PM.dvals ret') = true.
+Lemma match_single_gok : forall p i ret ret',
+  match_single p i ret = Some ret' -> pwf i = true ->
+  PM.delta_ok ret = true -> forallb pwf (PM.dvals ret) = true ->
+  PM.delta_ok ret' = true /\ forallb pwf (PM.dvals ret') = true.
 Proof.
   induction p as [n|n|n|l IHl r IHr|l IHl r IHr|x p IH|x p IH|id a1 a2 a3 a4 a5|p IHp x q IHq|p IHp x q IHq];
     intros i ret ret' H Pi D V; cbn [match_single] in H; try discriminate.
   - destruct i; try discriminate. destruct (N.eqb n n0); [injection H as <-; auto | discriminate].
   - destruct i; try discriminate. destruct (N.eqb n n0); [injection H as <-; auto | discriminate].
   - destruct i; try discriminate. destruct (N.eqb n n0); [injection H as <-; auto | discriminate].
-  - destruct i as [| | |l' r'| | | | | |]; try discriminate. destruct (pok_imp_inv _ _ Pi) as [P1 P2].
+  - destruct i as [| | |l' r'| | | | | |]; try discriminate. destruct (pwf_imp_inv _ _ Pi) as [P1 P2].
     destruct (match_single l l' ret) as [r1|] eqn:E1; [|discriminate].
     destruct (IHl _ _ _ E1 P1 D V) as [D1 V1]. eapply IHr; eauto.
   - destruct i as [| | | |l' r'| | | | |]; try discriminate.
-    assert (P12 : pok l' = true /\ pok r' = true).
-    { unfold PW.plug_ok in *. cbn in Pi. apply andb_true_iff in Pi as [A B].
-      apply andb_true_iff in A as [A1 A2]. apply andb_true_iff in B as [B1 B2]. now rewrite A1, A2, B1, B2. }
-    destruct P12 as [P1 P2].
+    cbn in Pi. apply andb_true_iff in Pi as [P1 P2].
     destruct (match_single l l' ret) as [r1|] eqn:E1; [|discriminate].
     destruct (IHl _ _ _ E1 P1 D V) as [D1 V1]. eapply IHr; eauto.
   - destruct i as [| | | | |y q'| | | |]; try discriminate. destruct (N.eqb x y); [|discriminate].
     eapply IH; eauto.
   - destruct i as [| | | | | |y q'| | |]; try discriminate. destruct (N.eqb x y); [|discriminate].
-    eapply IH; eauto.
-    unfold PW.plug_ok in *. cbn in Pi. apply andb_true_iff in Pi as [A B]. apply andb_true_iff in B as [B1 B2].
-    now rewrite A, B1.
+    cbn in Pi. apply andb_true_iff in Pi as [P1 P2]. eapply IH; eauto.
   - destruct (assoc id ret) as [v|] eqn:E.
     + destruct (pat_eqb v i); [injection H as <-; auto | discriminate].
     + injection H as <-. split.
@@ -342,22 +311,35 @@ Proof.
       * unfold PM.dvals in *. rewrite map_app, forallb_app. cbn. now rewrite V, Pi.
 Qed.
 
-Lemma bindc_match_sok : forall b c k, pok c = true ->
-  (forall th, PM.delta_ok th = true -> forallb pok (PM.dvals th) = true -> sok (k th)) ->
-  sok (bindc (match_single b c []) k).
+Lemma bindc_match_gok : forall axs b c k, pwf c = true ->
+  (forall th, PM.delta_ok th = true -> forallb pwf (PM.dvals th) = true -> gok axs (k th)) ->
+  gok axs (bindc (match_single b c []) k).
 Proof.
-  intros b c k Pc K. destruct (match_single b c []) as [th|] eqn:E; cbn; [|exact I].
-  destruct (match_single_sok _ _ _ _ E Pc eq_refl eq_refl). auto.
+  intros axs b c k Pc K. destruct (match_single b c []) as [th|] eqn:E; cbn; [|exact I].
+  destruct (match_single_gok _ _ _ _ E Pc eq_refl eq_refl). auto.
 Qed.
 
-Lemma none_sok : sok None. Proof. exact I. Qed.
+(** C02_lib_wf's class (substitution-free, unconstrained, Mu-positive everywhere) is a special case *)
+Definition sok (x : thunk) : Prop :=
+  match x with
+  | Some (t, c) => PW.simple_term (emb t) = true /\ PW.plug_ok c = true
+  | None => True
+  end.
+Lemma sok_gok : forall g axs x, owf g axs x -> sok x -> gok axs x.
+Proof.
+  intros g axs [[t c]|] Hw Hs; cbn in *; [|exact I]. destruct Hs as [S1 S2].
+  pose proof (emb_static _ _ _ _ Hw) as E.
+  destruct (PW.lib_wf axs (emb t) c S1 E) as [W _]. repeat split; auto.
+  unfold PW.plug_ok in S2. now apply andb_true_iff in S2 as [_ ?].
+Qed.
 
 (** * the full replay statement *)
-(** the bytes the serialiser emits for the thunk's term, whenever it emits any (ids < 256, ...), make
-    the checker push [Proved s] (symbols renumbered by the final symbol table) on any stack *)
+(** the bytes the serialiser emits for the thunk's term, whenever it emits any (it declines for
+    ids / memory indices >= 256, an assumption missing from memory, a Generalization whose variable
+    is not fresh), make the checker push [Proved s] (symbols renumbered by the final symbol table)
+    on any stack *)
 Definition compiles_to (axs : list pat) (x : thunk) (s : pat) : Prop :=
   exists t, x = Some (t, s) /\
-    static_conc axs t = Some s /\ uses_only axs t = true /\
     PM.static_conc axs (emb t) = Some s /\
     forall ls tbl st tbl' st' bs c,
       PF.mem_shape_ok (PM.s_mem st) -> PF.loads_ok (emb t) (PM.s_mem st) = true ->
@@ -367,16 +349,21 @@ Definition compiles_to (axs : list pat) (x : thunk) (s : pat) : Prop :=
         exec guards_sound ph bs (mkst K (map (PS.map_term T) (PM.s_mem st)) C)
         = Some (mkst (TProved (PS.map_sym T s) :: K) (map (PS.map_term T) (PM.s_mem st')) C).
 
-Theorem replays_full : forall axs x s,
-  conc x = Some s -> owf axs x -> sok x -> compiles_to axs x s.
+Theorem replays_full : forall axs x s, conc x = Some s -> gok axs x -> compiles_to axs x s.
 Proof.
-  intros axs [[t c]|] s Hc Hw Hs; cbn in Hc; try discriminate. injection Hc as ->.
-  cbn in Hw, Hs. destruct Hs as [S1 S2].
-  exists t. split; [reflexivity|]. split; [exact Hw|]. split; [eapply static_conc_uses_only; eauto|].
-  assert (E : PM.static_conc axs (emb t) = Some s) by (rewrite <- emb_static; assumption).
-  split; [exact E|].
+  intros axs [[t c]|] s Hc Hg; cbn in Hc; try discriminate. injection Hc as ->.
+  destruct Hg as (W & E & P).
+  exists t. split; [reflexivity|]. split; [exact E|].
   intros ls tbl st tbl' st' bs c Hm Hl Hcomp.
-  destruct (PW.lib_wf axs (emb t) s S1 E) as [W Dy].
-  destruct (PC.compile_correct ls axs (emb t) tbl st tbl' st' bs c Dy W Hm Hl Hcomp) as [E' R].
+  destruct (PC.compile_correct ls axs (emb t) tbl st tbl' st' bs c (emb_dynamic t) W Hm Hl Hcomp) as [E' R].
   assert (c = s) by congruence. subst c. split; [reflexivity | exact R].
 Qed.
+
+(** * where it stops being true: a rule that re-instantiates a premise whose conclusion is NOT simple *)
+(** the toolkit builds the thunk, advertises conclusion [s], the stored conclusion replays by the
+    generator's rules ([owf]), the serialiser emits bytes -- and the checker rejects them *)
+Definition toolkit_builds_checker_rejects (axs : list pat) (x : thunk) : Prop :=
+  exists t s tbl' st' bs,
+    x = Some (t, s) /\ owf false axs x /\
+    PM.compile [] axs (emb t) [] (PM.mksst [] (map TProved axs) [] Proof) = Some (tbl', st', bs, s) /\
+    exec guards_sound Proof bs (mkst [] (map (PS.map_term tbl') (map TProved axs)) []) = None.
